@@ -25,10 +25,13 @@ pub fn opt<T>(o: Option<T>, f: impl FnOnce(T) -> Value) -> Value {
 /// Problems met while BUILDING input values (a constructor or the day-number accessor of the code under test
 /// misbehaving). They are written out by `drive` as `days` events for Trace_Calendar, which rejects them: a broken
 /// constructor must surface as a violation, never as a crash of the harness.
-pub static PROBLEMS: std::sync::Mutex<Vec<Value>> = std::sync::Mutex::new(Vec::new());
-fn problem(n: i64, observed: i64) {
+pub static PROBLEMS: std::sync::Mutex<Vec<(&'static str, Value)>> = std::sync::Mutex::new(Vec::new());
+fn problem_ev(module: &'static str, e: Value) {
     let mut p = PROBLEMS.lock().unwrap();
-    if p.len() < 200 { p.push(json!({"op": "days", "n": n, "r": observed, "note": "building an input value"})); }
+    if p.len() < 300 { p.push((module, e)); }
+}
+fn problem(n: i64, observed: i64) {
+    problem_ev("Trace_Calendar", json!({"op": "days", "n": n, "r": observed, "note": "building an input value"}));
 }
 /// days -> (y, m, d), independent of chrono (Howard Hinnant's civil_from_days, shifted to 0001-01-01 = 1)
 pub fn civil_from_days(n: i64) -> (i32, u32, u32) {
@@ -77,12 +80,28 @@ pub fn dur(d: TimeDelta) -> Value { crate::big::big(dur_ns(d)) }
 pub fn mk_dur(ns: i128) -> Option<TimeDelta> {
     let s = ns.div_euclid(NS);
     if s < i64::MIN as i128 || s > i64::MAX as i128 { return None; }
-    TimeDelta::new(s as i64, ns.rem_euclid(NS) as u32)
+    let r = crate::guard(|| TimeDelta::new(s as i64, ns.rem_euclid(NS) as u32)).unwrap_or(None);
+    // an in-range duration that cannot be built, or is built as another value, is a finding, not a harness error
+    let ok = match r { Some(d) => crate::guard(|| dur_ns(d)) == Ok(ns), None => ns.abs() > DUR_LIM };
+    if !ok {
+        problem_ev("Trace_Duration", json!({"op": "d.new", "secs": crate::big::big(s), "nanos": crate::big::big(ns.rem_euclid(NS)),
+            "r": match r { Some(d) => crate::guard(|| dur(d)).unwrap_or_else(|_| none()), None => none() }, "note": "building an input value"}));
+    }
+    r
 }
 /// (2^63 - 1) ms in ns
 pub const DUR_LIM: i128 = (i64::MAX as i128) * 1_000_000;
 /// any [secs, frac] with frac < 2*10^9, leap representation on arbitrary seconds included
 pub fn mk_time_any(secs: u32, frac: u32) -> NaiveTime {
-    NaiveTime::from_num_seconds_from_midnight_opt(secs, 0).unwrap().with_nanosecond(frac).unwrap()
+    let base = crate::guard(|| NaiveTime::from_num_seconds_from_midnight_opt(secs, 0)).ok().flatten();
+    let t = base.and_then(|b| crate::guard(|| b.with_nanosecond(frac)).ok().flatten());
+    let good = t.map(|t| crate::guard(|| (t.num_seconds_from_midnight(), t.nanosecond())) == Ok((secs, frac))).unwrap_or(false);
+    if !good {
+        problem_ev("Trace_TimeOfDay", json!({"op": "t.nsfm", "secs": crate::big::big(secs as i128), "n": crate::big::big(0), "r": opt(base, tod), "note": "building an input value"}));
+        if let Some(b) = base {
+            problem_ev("Trace_TimeOfDay", json!({"op": "t.with", "f": "nanosecond", "t": tod(b), "v": crate::big::big(frac as i128), "r": opt(t, tod), "note": "building an input value"}));
+        }
+    }
+    t.or(base).unwrap_or(NaiveTime::MIN)
 }
 pub fn mk_ndt(n: i64, secs: u32, frac: u32) -> NaiveDateTime { mk_date(n).and_time(mk_time_any(secs, frac)) }
